@@ -14,8 +14,9 @@ RULE = ("abstract documents (paragraphs with multi-run text, tabs, line breaks, 
         "token, rendered by the harness's own writers to each format and extracted with the library. Oracle on get_full_text() (+ tables where documented): every body token "
         "exactly once, in source order, separated by whitespace across paragraph/cell/break/tab boundaries; no excluded-class token; no alphanumeric residue beyond declared "
         "decoration. Failures attributable to a listed known finding (by neutralising its feature in the model and re-judging) are counted, not reported. "
+        "Character leg (all formats with a declared encoding): each body token is followed in its run by 1-3 letters/symbols from Latin-1, Greek, Cyrillic, CJK below and above U+8000, Hangul and two supplementary-plane blocks; the output must carry the same characters right after the token. "
         "Non-trivial = >=2 body tokens and >=1 construct beyond plain paragraphs; distinct by (format, model digest).")
-ASSUMPTIONS = ["the harness's writers follow the format specifications (each output is self-checked for well-formedness)", "tokens are ASCII alphanumerics; only tokens are judged"]
+ASSUMPTIONS = ["the harness's writers follow the format specifications (each output is self-checked for well-formedness)", "tokens are ASCII alphanumerics; the token legs judge only tokens, the character leg the NFKC-stable letters and symbols that follow them"]
 
 
 def extract(fmt, data: bytes):
@@ -181,10 +182,87 @@ def run(ctx: Ctx) -> Partial:
     part.merge(shard_map(ctx, "vf.props.c02", "shard", len(FORMATS), extra_per_shard=[[f] for f in FORMATS]))
     if not os.environ.get("VF_FORMATS"):
         part.merge(shard_map(ctx, "vf.props.c02", "grid_shard", 3, extra_per_shard=[["xlsx"], ["ods"], ["xls"]]))
+        part.merge(shard_map(ctx, "vf.props.c02", "glyph_shard", len(GLYPH_FORMATS), extra_per_shard=[[f] for f in GLYPH_FORMATS]))
     return part
 
 
 def replay(ctx: Ctx, payload: dict):
     if payload.get("kind") == "grid":
         return [Violation(c, f"C02:{payload['format']}:{c}", f"[{payload['format']} grid] {d}", payload) for c, d in judge_grid_text(payload["model"], payload["format"])[:1]]
+    if payload.get("kind") == "glyph":
+        fails, _ = judge_glyphs(payload["model"], payload["format"], payload["glyphs"], payload.get("render_kw") or None)
+        return [Violation(c, f"C02:{payload['format']}:{c}", f"[{payload['format']}] {d}", payload) for c, d in fails[:1]]
     return evaluate(ctx, payload["model"], payload["format"], None, payload.get("render_kw"))
+
+
+# ---- character leg: the characters of a text piece, not only its token, arrive unchanged ---------------------------------
+GLYPH_RANGES = [(0xA1, 0xFF), (0x391, 0x3A9), (0x410, 0x44F), (0x4E00, 0x7FFF), (0x8000, 0x9FFF), (0xAC00, 0xD7A3), (0x1F600, 0x1F64F), (0x20000, 0x2A6DF)]
+
+
+def _glyph_ok(ch: str) -> bool:
+    import unicodedata
+    return unicodedata.category(ch)[0] in "LS" and unicodedata.normalize("NFKC", ch) == ch
+
+
+def glyphed(doc, glyphs: list[str]):
+    """Copy of ``doc`` in which the i-th body text leaf is followed, inside the same run, by glyphs[i % len]; returns (doc, {token: suffix})."""
+    import copy
+    d = copy.deepcopy(doc)
+    suffix = {}
+
+    def visit(x):
+        if isinstance(x, dict):
+            if x.get("k") == "t" and isinstance(x.get("tok"), str) and re.fullmatch(r"ZB[0-9A-Z]{5}", x["tok"]):
+                g = glyphs[len(suffix) % len(glyphs)]
+                suffix[x["tok"]] = g
+                x["tok"] = x["tok"] + g
+            for v in x.values():
+                visit(v)
+        elif isinstance(x, list):
+            for v in x:
+                visit(v)
+    visit(d["units"])
+    return d, suffix
+
+
+def judge_glyphs(doc, fmt, glyphs, render_kw=None):
+    prof = PROFILES[fmt]
+    gdoc, suffix = glyphed(doc, glyphs)
+    data = prof["render"](gdoc, **(render_kw or {}))
+    try:
+        text = "\n".join(r.get_full_text() for r in extract(fmt, data))
+    except Exception as e:  # noqa
+        return [("raised", f"{type(e).__name__}: {e}")], 0
+    fails, seen = [], 0
+    for tok in model.expect(doc, prof).body:
+        i = text.find(tok)
+        if i < 0 or tok not in suffix:
+            continue      # a missing token is the token leg's business
+        seen += 1
+        got = text[i + len(tok): i + len(tok) + len(suffix[tok])]
+        if got != suffix[tok]:
+            fails.append(("characters-changed", f"the source run is {tok}{suffix[tok]!r} ({[hex(ord(c)) for c in suffix[tok]]}); the output has {tok}{got!r} ({[hex(ord(c)) for c in got]})"))
+            break
+    return fails, seen
+
+
+# txt/csv/md/json are left out: their encoding is guessed from content and the documentation says the guess is unreliable for short files
+GLYPH_FORMATS = [f for f in os.environ.get("VF_GLYPH_FORMATS", "rtf,docx,odt,html,pptx,odp,xlsx,ods,epub,mhtml,eml").split(",") if f in FORMATS]
+
+
+def glyph_shard(ctx: Ctx, fmt: str):
+    from hypothesis import strategies as st
+    part = Partial()
+    prof = PROFILES[fmt]
+    ch = st.one_of([st.integers(a, b).map(chr) for a, b in GLYPH_RANGES]).filter(_glyph_ok)
+    optst = st.fixed_dictionaries({k: st.sampled_from(v) for k, v in prof.get("opts", {}).items()})
+    cases = st.fixed_dictionaries({"doc": model.documents(prof), "opts": optst, "glyphs": st.lists(st.lists(ch, min_size=1, max_size=3).map("".join), min_size=1, max_size=6)})
+
+    def ev(case):
+        kw = {"opts": case["opts"]} if case.get("opts") else None
+        fails, seen = judge_glyphs(case["doc"], fmt, case["glyphs"], kw)
+        hi = any(ord(c) >= 0x8000 for g in case["glyphs"] for c in g)
+        part.case(digest(["glyph", fmt, case]), seen >= 1 and hi, sample={"format": fmt, "glyphs": case["glyphs"], "leaves": seen} if part.evaluations % 41 == 0 else None, fmt="glyph-" + fmt)
+        return [Violation(c, f"C02:{fmt}:{c}", f"[{fmt}] {d}", {"kind": "glyph", "format": fmt, "model": case["doc"], "glyphs": case["glyphs"], "render_kw": kw or {}}) for c, d in fails[:1]]
+    hyp_search(ctx, f"c02-glyph-{fmt}", cases, ev, ctx.n(60, 1500), part)
+    return part
